@@ -9,6 +9,7 @@ Copyright 2020, 2021 William W. Kimball, Jr. MBA MSIS
 import sys
 import argparse
 import json
+from copy import deepcopy
 from os import access, R_OK, remove
 from os.path import isfile, exists
 from shutil import copy2
@@ -453,7 +454,9 @@ def merge_matrix(
     for lhs_doc in lhs_docs:
         for rhs_doc in rhs_docs:
             try:
-                lhs_doc.merge_with(rhs_doc.data)
+                # Every LHS document receives its own copy of the RHS document
+                # lest the nodes they adopt from it be shared between them.
+                lhs_doc.merge_with(deepcopy(rhs_doc.data))
             except MergeException as mex:
                 log.error(mex)
                 return_state = 41
